@@ -374,9 +374,21 @@ Theorem returned_matching_reaches_Tn : forall e vw vp (xiF TF : R -> R) vS,
       v_laws (wHighT e (TF v)) (csqHighT e (TF v)) (TF v) (xiF v) v X Y E P) /\
   mu (xiF vS) vS * xiF vS = csqHighT e (TF vS) /\
   energy_flux (wHighT e (Tnucl e)) (xiF vS) =
-  energy_flux (wHighT e (TF vS)) (mu (xiF vS) vS).
+  energy_flux (wHighT e (TF vS)) (mu (xiF vS) vS) /\
+  (* the profile is the one that starts from the RETURNED state: fluid velocity mu vw v+ in the
+     frame of the bubble centre at the wall position xi = vw with T = T+ *)
+  (xiF (mu vw vp), TF (mu vw vp)) = (vw, snd (fst (matchAt e vw vp))).
 Proof.
   intros e vw vp xiF TF vS Tp v0 Hroot Hbr Hne HvS Hv0 Hx0 HT0 Hode Hev Htii.
+  assert (Hstart : (xiF (mu vw vp), TF (mu vw vp)) = (vw, snd (fst (matchAt e vw vp)))).
+  { fold v0 Tp. rewrite Hx0, HT0. reflexivity. }
+  cut ((forall v, vS <= v <= v0 -> exists X Y E P,
+          derivable_pt_lim xiF v X /\ derivable_pt_lim TF v Y /\
+          v_laws (wHighT e (TF v)) (csqHighT e (TF v)) (TF v) (xiF v) v X Y E P) /\
+       mu (xiF vS) vS * xiF vS = csqHighT e (TF vS) /\
+       energy_flux (wHighT e (Tnucl e)) (xiF vS) =
+       energy_flux (wHighT e (TF vS)) (mu (xiF vS) vS)).
+  { intros (A & B & C). repeat split; assumption. }
   assert (HTn : shockTn e vw vp Tp = Tnucl e).
   { rewrite shootResidual_value in Hroot. fold Tp in Hroot. lra. }
   split; [|split].
@@ -394,6 +406,63 @@ Proof.
     apply TiiShock_zero_iff in Htii; [exact Htii|nra].
 Qed.
 Print Assumptions returned_matching_reaches_Tn.
+
+(** joint satisfiability of ALL hypotheses of returned_matching_reaches_Tn: radiation-like EOS
+    (w = T, cs^2 = 1/3), Tn = 5; wall at vw = 2/3 with v+ = 1/2, T+ = 9, so that the fluid
+    velocity at the wall is mu = 1/4 and the front coincides with the wall (vS = v0): the
+    profile is the tangent line of the flow there. *)
+Example composition_hypotheses_satisfiable :
+  let e := mk_env 5 (1/100) 10 (7/10) (fun _ => 1/3) (fun _ => 1/3) (fun T => T)
+                  (fun T => T) (fun T => T / 4) (fun T => T / 4) (fun T => 3 * T / 4)
+                  (fun T => 3 * T / 4) (1/10) (fun x => x) (fun _ _ => (0, 0, 9, 0))
+                  (fun _ _ _ => 5) in
+  let vw := 2/3 in let vp := 1/2 in let v0 := 1/4 in
+  let X0 := fst (shockDE e v0 (vw, 9) true) in let Y0 := snd (shockDE e v0 (vw, 9) true) in
+  let xiF := fun v => vw + X0 * (v - v0) in let TF := fun v => 9 + Y0 * (v - v0) in
+  mu vw vp = v0 /\
+  shootResidual e vw vp = 0 /\
+  ~ 0 < mu vw v0 * vw - csqHighT e 9 /\ vw <> vp /\ 0 < v0 <= v0 /\ v0 < 1 /\
+  xiF v0 = vw /\ TF v0 = 9 /\
+  (forall v, v0 <= v <= v0 ->
+     0 < TF v /\ 0 < xiF v < 1 /\ wHighT e (TF v) <> 0 /\ csqHighT e (TF v) <> 0 /\
+     derivable_pt_lim xiF v (fst (shockDE e v (xiF v, TF v) true)) /\
+     derivable_pt_lim TF v (snd (shockDE e v (xiF v, TF v) true))) /\
+  shock e v0 (xiF v0, TF v0) = 0 /\
+  (forall vm xi Tm, frontState e vw vp 9 v0 (xiF v0) (TF v0) = (vm, xi, Tm) ->
+     TiiShock e vm xi Tm (shockTn e vw vp 9) = 0).
+Proof.
+  cbv zeta.
+  assert (Emu : mu (2/3) (1/2) = 1/4) by (unfold mu; lra).
+  assert (Emu2 : mu (2/3) (1/4) = 1/2) by (unfold mu; lra).
+  set (e := mk_env _ _ _ _ _ _ _ _ _ _ _ _ _ _ _ _).
+  assert (Lin : forall a c b x, derivable_pt_lim (fun v => a + c * (v - b)) x c).
+  { intros a c b x eps Heps. exists (mkposreal 1 Rlt_0_1). intros h Hh _.
+    replace ((a + c * (x + h - b) - (a + c * (x - b))) / h - c) with 0 by (field; assumption).
+    rewrite Rabs_R0. assumption. }
+  split; [exact Emu|]. split.
+  { rewrite shootResidual_value. unfold e. cbn [matchAt shockTn Tnucl fst snd]. ring. }
+  split; [rewrite Emu2; unfold e; cbn [csqHighT]; lra|].
+  split; [lra|]. split; [lra|]. split; [lra|].
+  split; [ring|]. split; [ring|]. split.
+  { intros v Hv. assert (Ev : v = 1/4) by lra. subst v.
+    replace (2 / 3 + fst (shockDE e (1 / 4) (2 / 3, 9) true) * (1 / 4 - 1 / 4)) with (2/3) by ring.
+    replace (9 + snd (shockDE e (1 / 4) (2 / 3, 9) true) * (1 / 4 - 1 / 4)) with 9 by ring.
+    unfold e at 1 2. cbn [wHighT csqHighT].
+    repeat split; try lra; apply Lin. }
+  split.
+  { replace (2 / 3 + fst (shockDE e (1 / 4) (2 / 3, 9) true) * (1 / 4 - 1 / 4)) with (2/3) by ring.
+    replace (9 + snd (shockDE e (1 / 4) (2 / 3, 9) true) * (1 / 4 - 1 / 4)) with 9 by ring.
+    apply shock_zero_iff. rewrite Emu2. unfold e. cbn [csqHighT]. lra. }
+  intros vm xi Tm HF.
+  replace (2 / 3 + fst (shockDE e (1 / 4) (2 / 3, 9) true) * (1 / 4 - 1 / 4)) with (2/3) in HF by ring.
+  replace (9 + snd (shockDE e (1 / 4) (2 / 3, 9) true) * (1 / 4 - 1 / 4)) with 9 in HF by ring.
+  destruct (frontState_cases e (2/3) (1/2) 9 (1/4) (2/3) 9) as (_ & _ & C).
+  rewrite Emu, Emu2 in C.
+  rewrite C in HF by (unfold e; cbn [csqHighT]; lra).
+  injection HF as <- <- <-.
+  unfold e. cbn [shockTn]. apply TiiShock_zero_iff; [lra|].
+  rewrite Emu2. unfold energy_flux, gam2. cbn [wHighT]. lra.
+Qed.
 
 (** non-vacuity: ideal gas p = T^4, w = 4 T^4, cs^2 = 1/3; a point inside a shock wave *)
 Example hypotheses_satisfiable :
